@@ -117,7 +117,7 @@ EXPORT errno_t _wcscmp_s_chk(const wchar_t *restrict dest, rsize_t dmax,
         }
     }
 
-    while (*dest && *src && dmax && smax) {
+    while (dmax && smax && *dest && *src) {
 
         if (*dest != *src) {
             break;
@@ -129,6 +129,7 @@ EXPORT errno_t _wcscmp_s_chk(const wchar_t *restrict dest, rsize_t dmax,
         smax--;
     }
 
-    *resultp = *dest - *src;
+    /* equal within the first dmax/smax characters */
+    *resultp = (dmax && smax) ? *dest - *src : 0;
     return RCNEGATE(EOK);
 }
